@@ -299,7 +299,7 @@ impl Property for P {
             .prop_map(|(text, spec, by_ref)| Case { text, spec, by_ref });
         // texts on a logarithmic size scale with a width relative to the text
         let scaled = (
-            gen::scaled_text_and_width(Mix::FULL, 1500),
+            gen::scaled_text_and_width(Mix::FULL, 4000),
             gen::optspec(og),
             any::<bool>(),
         )
